@@ -166,6 +166,9 @@ def judge(case, rep, S):
             expect_ok = False
         elif kind == "valid_padded":
             d["X"] = "red"
+            if rng.random() < 0.6:
+                # entries for keys that are not amino acids take no part: whatever their values are
+                d[rng.choice(["X", "B", "name", "*"])] = rng.choice(["pink", "#aa00aa", "my scheme", None, 3])
         elif kind == "empty":
             import collections
             d = rng.choice([{}, collections.OrderedDict()])
